@@ -31,6 +31,24 @@ def nested_source_programs():
     return out
 
 
+def expansion_time_load_programs():
+    """a macro whose BODY loads a nested source text while it expands and then returns a form it built without any
+    position: the form takes the macro call site - also when the call is evaluated directly in the root environment (a
+    top-level form, under progn / if / handler-bind at top level), the environment a nested load runs in"""
+    from progs import SRC
+    defs = [[S("defmacro"), S("m-load-built"), [S("a")], [S("load-string"), SRC([[S("probe"), Q(S("expanding"))], 7])], [S("list"), S("car"), S("a"), 2]],
+            [S("defmacro"), S("m-load-built-error"), [S("a")], [S("load-string"), SRC([1, 2])], [S("list"), S("error"), [S("list"), S("quote"), Q(S("built"))], S("a")]],
+            [S("defmacro"), S("m-load-nested"), [S("a")], [S("load-string"), SRC([[S("load-string"), SRC([3])]])], [S("list"), S("list"), 1, [S("list"), S("cdr"), S("a"), S("a")]]]]
+    out = []
+    for call in ([S("m-load-built"), Q([1])], [S("m-load-built-error"), 5], [S("m-load-nested"), Q([1])]):
+        for wrap in (lambda e: e, lambda e: [S("progn"), 0, e], lambda e: [S("if"), S("true"), e, 0], lambda e: [S("list"), 1, e],
+                     lambda e: [S("handler-bind"), [[S("condition"), [S("lambda"), [S("c"), S("&rest"), S("r")], [S("capture")], [S("rethrow")]]]], e],
+                     lambda e: [[S("lambda"), [], e]], lambda e: [S("let"), [[S("z"), 1]], e]):
+            out.append(defs + [[S("probe"), Q(S("before"))], wrap(call)])
+        out.append(defs + [[S("defun"), S("in-fn"), [], call], [S("in-fn")]])
+    return out
+
+
 def run(tier):
     V = Verdict("C18", tier)
     work = Work("C18")
@@ -59,6 +77,12 @@ def _run(V, work, tier):
     # failing forms inside a NESTED source text (load-string): the error carries the position inside that text - also
     # when the failing form is the very first thing in it (offset 0) - and the frames below it keep theirs
     for forms in nested_source_programs():
+        i = len(recs)
+        rec, srcs, pos = mach.prog_with_layout(i, [forms], {}, None, rnd)
+        recs.append(rec)
+        drv.append({"id": i, "seq": srcs, "cfg": {}})
+        poss.append(pos)
+    for forms in expansion_time_load_programs():
         i = len(recs)
         rec, srcs, pos = mach.prog_with_layout(i, [forms], {}, None, rnd)
         recs.append(rec)
